@@ -28,7 +28,7 @@ ASSUMPTIONS = [
     'unsorted indices inside a row are allowed (the spec does not forbid '
     'them); duplicates are detected by decoding twice (assign / accumulate)',
 ]
-REQUIRED = ['spec_decodes', 'empty_axis_tables', 'all_zero_tables',
+REQUIRED = ['format_fs_writes', 'spec_decodes', 'empty_axis_tables', 'all_zero_tables',
             'cli_convert_files', 'layout_csc_seen', 'layout_unsorted_seen',
             'inplace_zeroed_tables']
 
@@ -76,7 +76,9 @@ def run_case(ctx, index):
             ctx.count('cli_convert_files')
         else:
             _hdf5.write(ctx, t, cfg, path)
-        dec = _hdf5.check_conformance(ctx, path, src, desc)
+        dec = _hdf5.check_conformance(
+            ctx, path, src, desc,
+            custom=None if desc.get('via') else cfg.get('custom_category'))
         if not src.D.any():
             ctx.count('all_zero_tables')
     finally:
